@@ -61,6 +61,17 @@ fn entries() -> Vec<Entry> {
     e!("KeyPair::gen_with_defaults", Kind::Pair, 32, { let kp = dryoc::keypair::StackKeyPair::gen_with_defaults(); [kp.public_key.to_vec(), kp.secret_key.to_vec()].concat() });
     e!("SigningKeyPair::gen_with_defaults", Kind::SignSeed, 32, { let kp = dryoc::sign::SigningKeyPair::<dryoc::sign::PublicKey, dryoc::sign::SecretKey>::gen_with_defaults(); [kp.public_key.to_vec(), kp.secret_key.to_vec()].concat() });
     e!("Kdf::gen_with_defaults (key, context)", Kind::Ident, 40, { let (k, c) = dryoc::kdf::StackKdf::gen_with_defaults().into_parts(); [k.to_vec(), c.to_vec()].concat() });
+    #[cfg(feature = "nightly")]
+    {
+        use dryoc::protected::*;
+        e!("HeapByteArray<32>::gen_locked", Kind::Ident, 32, HeapByteArray::<32>::gen_locked().unwrap().as_slice().to_vec());
+        e!("HeapByteArray<32>::gen_readonly_locked", Kind::Ident, 32, HeapByteArray::<32>::gen_readonly_locked().unwrap().as_slice().to_vec());
+        e!("HeapByteArray<24>::gen_readonly_locked", Kind::Ident, 24, HeapByteArray::<24>::gen_readonly_locked().unwrap().as_slice().to_vec());
+        e!("Locked<HeapByteArray<32>>::gen", Kind::Ident, 32, <Locked<HeapByteArray<32>> as NewByteArray<32>>::gen().as_slice().to_vec());
+        e!("HeapByteArray<32>::gen", Kind::Ident, 32, <HeapByteArray<32> as NewByteArray<32>>::gen().as_slice().to_vec());
+        e!("KeyPair::gen_locked_keypair", Kind::Pair, 32, { let kp = dryoc::keypair::KeyPair::<Locked<HeapByteArray<32>>, Locked<HeapByteArray<32>>>::gen_locked_keypair().unwrap(); [kp.public_key.as_slice().to_vec(), kp.secret_key.as_slice().to_vec()].concat() });
+        e!("KeyPair::gen_readonly_locked_keypair", Kind::Pair, 32, { let kp = dryoc::keypair::KeyPair::<LockedRO<HeapByteArray<32>>, LockedRO<HeapByteArray<32>>>::gen_readonly_locked_keypair().unwrap(); [kp.public_key.as_slice().to_vec(), kp.secret_key.as_slice().to_vec()].concat() });
+    }
     e!("Kdf::gen (key, context)", Kind::Ident, 40, { let (k, c) = dryoc::kdf::StackKdf::gen().into_parts(); [k.to_vec(), c.to_vec()].concat() });
     e!("DryocBox::seal.ephemeral", Kind::SealedEpk, 32, { let bx = dryoc::dryocbox::VecBox::seal_to_vecbox(b"abc", &StackByteArray::<32>::from(&sodium::scalarmult_base(&[9u8; 32]))).unwrap(); bx.to_vec()[..32].to_vec() });
     e!("DryocStream::init_push.header", Kind::Ident, 24, { let (_s, h): (dryoc::dryocstream::DryocStream<dryoc::dryocstream::Push>, StackByteArray<24>) = dryoc::dryocstream::DryocStream::init_push(&StackByteArray::<32>::from(&[7u8; 32])); h.to_vec() });
